@@ -5,6 +5,8 @@ pub mod flood;
 pub mod imgops;
 pub mod maps;
 pub mod mdparse;
+pub mod memread;
+pub mod pattern;
 pub mod recdest;
 pub mod rng;
 pub mod sanitize;
